@@ -10,12 +10,13 @@ MCZLen == [k \in MCKeys |-> 1]
 MCAutoZ == [k \in MCKeys |-> k = "k2"]
 
 MultiNext ==
-    \/ \E h \in Handles, k \in Keys : AddLoose(h, k)
+    \/ \E h \in Handles, k \in Keys : AddLoose(h, k) /\ NL
     \/ \E mode \in {"NO", "YES"}, pp \in BOOLEAN :
-          \E order \in SetToSeqs(LoosePresent \ KeysOf(V("hp"))) : PackAllLoose("hp", mode, pp, order)
-    \/ Clean("hp")
-    \/ \E h \in Handles, S \in {{"k1"}, {"k2"}, Keys} : Has(h, S)
-    \/ \E h \in Handles : List(h)
+          \E order \in SetToSeqs(LoosePresent \ KeysOf(V("hp"))) : PackAllLoose("hp", mode, pp, order) /\ NL
+    \/ Clean("hp") /\ NL
+    \/ \E h \in Handles, S \in {{"k1"}, {"k2"}, Keys} : Has(h, S) /\ NL
+    \/ \E h \in Handles : List(h) /\ NL
+    \/ \E h \in Handles : ListPart(h) /\ NL
 
 MultiSpec == Init /\ [][MultiNext]_vars
 Depth == TLCGet("level") <= MaxDepth
